@@ -220,7 +220,7 @@ class ShadowArray:
                 last = {}
                 for j, v in self.assoc:
                     last[j] = v
-                return ("sparse", sorted((j, v) for j, v in last.items() if not (v == self.default and type(v) is type(self.default))))
+                return ("sparse", sorted(last.items(), key=lambda jv: jv[0]))
             return ("sparse", list(self.assoc))
         return [snap(x) for x in self.items]
 
@@ -236,6 +236,12 @@ def snap(x):
 
 def store_eq(a, b):
     """equality of two store snapshots; floats: equal, or both NaN (sign of zero / NaN payload: see C10)"""
+    if isinstance(a, tuple) and isinstance(b, tuple) and len(a) == 2 and a[0] == "sparse" and b[0] == "sparse":
+        da, db = dict(a[1]), dict(b[1])  # concrete indices (symbolic-index snapshots are never compared)
+        for k in set(da) | set(db):
+            if not store_eq(da.get(k, 0), db.get(k, 0)):
+                return False
+        return True
     if isinstance(a, (list, tuple)) and isinstance(b, (list, tuple)):
         if len(a) != len(b):
             return False
@@ -249,7 +255,7 @@ def store_eq(a, b):
 
 
 _cache = {}
-SPARSE_THRESHOLD = 512
+SPARSE_THRESHOLD = 100  # longer arrays are association lists, so that a symbolic index costs one comparison per write
 
 
 def all_fields(cls):
